@@ -197,7 +197,39 @@ fn lifted(signal: Signal) -> &'static [&'static str] {
     }
 }
 
+fn fail(out: &str, why: String) -> String {
+    format!("{}\tFAIL:{}", out, why.replace(['\t', '\n', ' '], "-"))
+}
+
+/// The property evaluated on one decoded record alone.
+fn record_oracle(d: &EventD, signal: Signal, pc: &otlp::Canon) -> Option<String> {
+    let mut keys = pc.attr_keys.clone();
+    keys.sort();
+    if let Some(w) = keys.windows(2).find(|w| w[0] == w[1]) {
+        return Some(format!("duplicate-attribute-key:{}", Sexp::str(&w[0])));
+    }
+    for k in d.distinct_keys() {
+        if !lifted(signal).contains(&k) && !pc.attr_keys.iter().any(|a| a == k) {
+            return Some(format!("property-missing-from-attributes:{}", Sexp::str(k)));
+        }
+    }
+    // timestamps must fit the 64-bit nanosecond fields (F6)
+    let stamps: Vec<case::TsD> = match (d.extent, signal) {
+        (ExtentD::None, _) => vec![],
+        (ExtentD::Point(t), _) => vec![t],
+        (ExtentD::Range(_, b), Signal::Logs) => vec![b],
+        (ExtentD::Range(a, b), _) => vec![a, b],
+    };
+    if stamps.iter().any(|t| t.unix_nanos() > u64::MAX as u128) {
+        return Some("timestamp-does-not-fit-the-64-bit-nanosecond-field".into());
+    }
+    None
+}
+
 fn run_otlp(line: &str) -> String {
+    if let Some(a) = parse_case(line, "otlp-re", 3) {
+        return run_otlp_re(&a);
+    }
     let Some(a) = parse_case(line, "otlp", 2) else { return "bad-case".into() };
     let Some(signal) = a[0].as_atom().and_then(Signal::parse) else { return "bad-case".into() };
     let Some(d) = EventD::parse(&a[1]) else { return "bad-case".into() };
@@ -205,7 +237,6 @@ fn run_otlp(line: &str) -> String {
         (otlp::send(signal, Encoding::Proto, evt), otlp::send(signal, Encoding::Json, evt))
     });
     let Some((p, j)) = sent else { return "bad-case".into() };
-    let fail = |out: &str, why: String| format!("{}\tFAIL:{}", out, why.replace(['\t', '\n', ' '], "-"));
     match (p, j) {
         // the model predicts the panic (it follows the code), the property forbids it
         (Sent::Panic, Sent::Panic) => "panic\tFAIL:panic-on-the-emitting-thread".into(),
@@ -230,37 +261,13 @@ fn run_otlp(line: &str) -> String {
                 Err(e) => return fail(&pc.text, format!("json-schema:{}", e)),
             };
             if jc.text != pc.text {
-                // name the first difference first (so that one defect gives one failure group), then the record
-                let (pt, jt): (Vec<&str>, Vec<&str>) = (pc.text.split(' ').collect(), jc.text.split(' ').collect());
-                let i = pt.iter().zip(jt.iter()).position(|(a, b)| a != b).unwrap_or(pt.len().min(jt.len()));
-                let tok = |t: &[&str]| t.get(i).map(|x| x.trim_matches(|c| c == '(' || c == ')').to_string()).unwrap_or_default();
-                return fail(
-                    &pc.text,
-                    format!("json-denotes-another-record:protobuf={},json={}:{}", tok(&pt), tok(&jt), jc.text),
-                );
+                return fail(&pc.text, json_differs(&pc.text, &jc.text));
             }
             // the property on the decoded record alone
-            let mut keys = pc.attr_keys.clone();
-            keys.sort();
-            if let Some(w) = keys.windows(2).find(|w| w[0] == w[1]) {
-                return fail(&pc.text, format!("duplicate-attribute-key:{}", Sexp::str(&w[0])));
+            match record_oracle(&d, signal, &pc) {
+                Some(why) => fail(&pc.text, why),
+                None => pc.text,
             }
-            for k in d.distinct_keys() {
-                if !lifted(signal).contains(&k) && !pc.attr_keys.iter().any(|a| a == k) {
-                    return fail(&pc.text, format!("property-missing-from-attributes:{}", Sexp::str(k)));
-                }
-            }
-            // timestamps must fit the 64-bit nanosecond fields (F6)
-            let stamps: Vec<case::TsD> = match (d.extent, signal) {
-                (ExtentD::None, _) => vec![],
-                (ExtentD::Point(t), _) => vec![t],
-                (ExtentD::Range(_, b), Signal::Logs) => vec![b],
-                (ExtentD::Range(a, b), _) => vec![a, b],
-            };
-            if stamps.iter().any(|t| t.unix_nanos() > u64::MAX as u128) {
-                return fail(&pc.text, "timestamp-does-not-fit-the-64-bit-nanosecond-field".into());
-            }
-            pc.text
         }
         (p, j) => {
             let show = |s: &Sent| match s {
@@ -272,6 +279,115 @@ fn run_otlp(line: &str) -> String {
             fail("inconsistent", format!("protobuf={},json={}", show(&p), show(&j)))
         }
     }
+}
+
+/// name the first difference first (so that one defect gives one failure group), then the record
+fn json_differs(pc: &str, jc: &str) -> String {
+    let (pt, jt): (Vec<&str>, Vec<&str>) = (pc.split(' ').collect(), jc.split(' ').collect());
+    let i = pt.iter().zip(jt.iter()).position(|(a, b)| a != b).unwrap_or(pt.len().min(jt.len()));
+    let tok = |t: &[&str]| t.get(i).map(|x| x.trim_matches(|c| c == '(' || c == ')').to_string()).unwrap_or_default();
+    format!("json-denotes-another-record:protobuf={},json={}:{}", tok(&pt), tok(&jt), jc)
+}
+
+/// keys a `(reemit …)` value may not sit under in an `otlp-re` case: the ones some signal lifts out of the attributes
+/// (whether and how often a lifted value is formatted is the encoder's business; an ordinary attribute is formatted
+/// at least once whenever its event's attributes are streamed). The same list is in lean/EmitModel/Driver/C13.lean.
+const RE_RESERVED: [&str; 13] = [
+    "lvl",
+    "trace_id",
+    "span_id",
+    "span_parent",
+    "err",
+    "evt_kind",
+    "span_name",
+    "metric_name",
+    "metric_agg",
+    "metric_value",
+    "metric_unit",
+    "exception.message",
+    "exception.stacktrace",
+];
+
+/// `(otlp-re SIGNAL OUTER INNER)`: OUTER is emitted by the caller; every `(reemit xTEXT)` value of OUTER emits INNER
+/// through the SAME emitter, on the emitting thread, each time the emitter formats it (re-entrancy of `Otlp::emit`).
+/// Output `(re OUTER-RECORD|none INNER-RECORD|none)` — INNER-RECORD is the one record all nested emits produced.
+fn run_otlp_re(a: &[Sexp]) -> String {
+    let Some(signal) = a[0].as_atom().and_then(Signal::parse) else { return "bad-case".into() };
+    let (Some(outer), Some(inner)) = (EventD::parse(&a[1]), EventD::parse(&a[2])) else { return "bad-case".into() };
+    // records are told apart by their scope
+    if outer.mdl == inner.mdl {
+        return "bad-case".into();
+    }
+    for (k, v) in &outer.props {
+        if matches!(v, case::Val::Reemit(_)) && (RE_RESERVED.contains(&k.as_str()) || outer.props.iter().filter(|(k2, _)| k2 == k).count() != 1) {
+            return "bad-case".into();
+        }
+    }
+    let name = |enc: Encoding| if enc == Encoding::Proto { "protobuf" } else { "json" };
+    let mut sides: Vec<(String, Option<otlp::Canon>, Option<otlp::Canon>, u32)> = Vec::new();
+    let mut panics: Vec<&str> = Vec::new();
+    for enc in [Encoding::Proto, Encoding::Json] {
+        let Some(sent) = otlp::send_re(signal, enc, &outer, &inner) else { return "bad-case".into() };
+        match sent {
+            otlp::SentRe::Panic => panics.push(name(enc)),
+            otlp::SentRe::Broken(e) => return fail("inconsistent", format!("{}:{}", name(enc), e)),
+            otlp::SentRe::Bodies(bodies, fired) => {
+                let mut recs = Vec::new();
+                for b in &bodies {
+                    match otlp::canon_all(signal, enc, b) {
+                        Ok(v) => recs.extend(v),
+                        Err(e) => return fail("undecodable", format!("{}:{}", name(enc), e)),
+                    }
+                }
+                let (mut o, mut i): (Vec<otlp::Canon>, Vec<otlp::Canon>) = (Vec::new(), Vec::new());
+                for r in recs {
+                    if r.scope == outer.mdl {
+                        o.push(r);
+                    } else if r.scope == inner.mdl {
+                        i.push(r);
+                    } else {
+                        return fail("inconsistent", format!("{}:record-under-foreign-scope:{}", name(enc), Sexp::str(&r.scope)));
+                    }
+                }
+                if o.len() > 1 {
+                    return fail("inconsistent", format!("{}:outer-event-exported-{}-times", name(enc), o.len()));
+                }
+                if i.windows(2).any(|w| w[0].text != w[1].text) {
+                    return fail("inconsistent", format!("{}:nested-emits-of-one-event-gave-different-records", name(enc)));
+                }
+                // every nested emit is an emit of its own: all of them are exported, or (declined) none
+                if !i.is_empty() && i.len() != fired as usize {
+                    return fail("inconsistent", format!("{}:nested-event-emitted-{}-times-exported-{}-times", name(enc), fired, i.len()));
+                }
+                let text = format!(
+                    "(re {} {})",
+                    o.first().map(|c| c.text.as_str()).unwrap_or("none"),
+                    i.first().map(|c| c.text.as_str()).unwrap_or("none")
+                );
+                sides.push((text, o.pop(), i.pop(), fired));
+            }
+        }
+    }
+    if !panics.is_empty() {
+        // "accepts it without panicking on the caller's thread" - also when the value being formatted emits
+        return format!("panic\tFAIL:panic-on-the-emitting-thread({})", panics.join(","));
+    }
+    let (pt, po, pi, fired) = sides.remove(0);
+    let (jt, _, _, _) = sides.remove(0);
+    if pt != jt {
+        return fail(&pt, json_differs(&pt, &jt));
+    }
+    if let Some(why) = po.as_ref().and_then(|c| record_oracle(&outer, signal, c)) {
+        return fail(&pt, why);
+    }
+    if let Some(why) = pi.as_ref().and_then(|c| record_oracle(&inner, signal, c)) {
+        return fail(&pt, format!("nested:{}", why));
+    }
+    // the logs signal takes everything: the event itself and whatever its formatting code emitted
+    if signal == Signal::Logs && (po.is_none() || (fired > 0 && pi.is_none())) {
+        return fail(&pt, "event-lost-by-the-logs-signal".into());
+    }
+    pt
 }
 
 // ------------------------------------------------------------------------------------------ c13_term
